@@ -346,10 +346,280 @@ def check_matrix_case(case, tol=1e-7):
     return fails
 
 
+# ---------------------------------------------------------------------------
+# operator-valued elimination masks (fully_diagonalize= sympy Matrix / {0: Matrix} / Expr)
+
+_KSYM = sympy.Symbol("k", integer=True, nonnegative=True)
+
+
+def _pat_match(pat, p):
+    """condition entry of one mode against the operator power p (p > 0: annihilation).
+    ["eq", v]: p == v;  ["ge", c]: the symbolic power op**(k + c), k >= 0, i.e. p >= c;  ["le", -c]: Dagger(op)**(k + c)"""
+    kind, v = pat
+    return p == v if kind == "eq" else (p >= v if kind == "ge" else p <= v)
+
+
+def mask_selects(entry, powers):
+    """entry: list of terms, a term is one pattern per mode; the mask element is the SUM of the corresponding operator
+    powers and selects a term of the operator iff some mask term matches all its powers (model: PV.NOF.Mask.matches)"""
+    return any(all(_pat_match(pt, p) for pt, p in zip(term, powers)) for term in entry)
+
+
+def _entry_adj(entry):
+    flip = {"eq": "eq", "ge": "le", "le": "ge"}
+    return [[[flip[k], -v] for k, v in term] for term in entry]
+
+
+def _entry_expr(entry, ops):
+    tot = sympy.S.Zero
+    for term in entry:
+        t = sympy.S.One
+        for (kind, v), o in zip(term, ops):
+            if kind == "eq":
+                if v > 0:
+                    t = t * o**v
+                elif v < 0:
+                    t = t * Dagger(o) ** (-v)
+            elif kind == "ge":
+                t = t * o ** (_KSYM + v if v else _KSYM)
+            else:
+                t = t * Dagger(o) ** (_KSYM - v if v else _KSYM)
+        tot = tot + t
+    return tot
+
+
+def _rand_diag_entry(rng, nmodes, binary):
+    """self-adjoint selection that never selects the zero power (same Fock state: degenerate)"""
+    if rng.random() < 0.25:
+        return []
+    m = rng.randrange(nmodes)
+
+    def one(pat):
+        t = [["eq", 0] for _ in range(nmodes)]
+        t[m] = pat
+        return t
+    if binary[m]:
+        return [one(["eq", 1]), one(["eq", -1])]
+    r = rng.random()
+    if r < 0.4:
+        return [one(["eq", 1]), one(["eq", -1])]                     # a + a†
+    if r < 0.7:
+        return [one(["ge", 2]), one(["le", -2])]                     # a**(k+2) + Dagger(a)**(k+2)
+    if r < 0.85:
+        return [one(["ge", 1]), one(["le", -1])]                     # a**(k+1) + Dagger(a)**(k+1)
+    return [one(["eq", 2]), one(["eq", -2])]
+
+
+def _rand_off_entry(rng, nmodes, binary):
+    """selection for a matrix element between two DIFFERENT levels (non-degenerate for every power)"""
+    m = rng.randrange(nmodes)
+
+    def one(pat):
+        t = [["eq", 0] for _ in range(nmodes)]
+        t[m] = pat
+        return t
+    if binary[m]:
+        return rng.choice([[one(["eq", 1])], [one(["eq", 1]), one(["eq", -1])], [one(["eq", 0]), one(["eq", -1])], [one(["eq", 0])]])
+    r = rng.random()
+    if r < 0.2:
+        return [one(["eq", 1]), one(["eq", -1])]                     # a + a†
+    if r < 0.45:
+        return [one(["le", 0])]                                      # Dagger(a)**k   (rotating-wave type)
+    if r < 0.6:
+        return [one(["ge", 0])]                                      # a**k
+    if r < 0.8:
+        return [one(["ge", 2]), one(["le", -2])]
+    if r < 0.9:
+        return [one(["eq", 0]), one(["eq", 1])]                      # 1 + a
+    return []
+
+
+def gen_mask_case(rng):
+    sub = rng.choice(["levels_boson", "levels_boson", "levels_fermion", "scalar1", "scalar2"])
+
+    def r(lo=-3, hi=3, den=(1, 2, 3, 5)):
+        return [rng.randint(lo, hi), rng.choice(den)]
+    if sub in ("levels_boson", "levels_fermion"):
+        binary = [sub == "levels_fermion"]
+        L = 2
+        mask = [[None] * L for _ in range(L)]
+        for i in range(L):
+            mask[i][i] = _rand_diag_entry(rng, 1, binary)
+            for j in range(i):
+                mask[i][j] = _rand_off_entry(rng, 1, binary)
+                mask[j][i] = _entry_adj(mask[i][j])
+        off = [r(), r(), r()]
+        if off[0][0] == 0 and off[1][0] == 0:
+            off[0][0] = 1
+        return dict(kind="mask", sub=sub, form=rng.choice(["matrix", "dict"]), L=L,
+                    cs=[[0, 1], [rng.choice([3, 5, 9, 11]), 7]],            # level offsets: difference never an integer
+                    diag=[[r(), r(), r()] for _ in range(L)], off=off, mask=mask, K=12, N=2)
+    if sub == "scalar1":
+        return dict(kind="mask", sub=sub, form=rng.choice(["expr", "dict", "matrix"]), c=[r(1, 3), r(), r()],
+                    mask=[[_rand_diag_entry(rng, 1, [False]) or [[["eq", 1]], [["eq", -1]]]]], K=13, N=2)
+    # two boson modes: masks that are products over both modes
+    ent = rng.choice([
+        [[["eq", 1], ["eq", -1]], [["eq", -1], ["eq", 1]]],                                # a b† + a† b
+        [[["eq", 1], ["eq", 0]], [["eq", -1], ["eq", 0]], [["eq", 1], ["eq", -1]], [["eq", -1], ["eq", 1]]],
+        [[["eq", 1], ["eq", 1]], [["eq", -1], ["eq", -1]], [["eq", 0], ["eq", 1]], [["eq", 0], ["eq", -1]]],
+        [[["ge", 1], ["eq", 0]], [["le", -1], ["eq", 0]]],                                 # a**(k+1) + Dagger(a)**(k+1)
+    ])
+    return dict(kind="mask", sub=sub, form=rng.choice(["expr", "dict"]), c=[r(1, 3), r(1, 3), r(1, 3)], mask=[[ent]], K=7, N=2)
+
+
+def _mask_build(case):
+    """-> sp, level count L, H0, H1 (sympy L x L matrices of operator expressions), hop"""
+    from pymablock.number_ordered_form import NumberOperator
+    sub = case["sub"]
+    if sub == "levels_boson":
+        sp = Space(1, 0, case["K"])
+        o = sp.bos[0]
+    elif sub == "levels_fermion":
+        sp = Space(0, 1, 2)
+        o = sp.fer[0]
+    elif sub == "scalar1":
+        sp = Space(1, 0, case["K"])
+    else:
+        sp = Space(2, 0, case["K"])
+    if sub in ("levels_boson", "levels_fermion"):
+        L = case["L"]
+        Nop = NumberOperator(o)
+        H0 = sympy.zeros(L, L)
+        H1 = sympy.zeros(L, L)
+        for i in range(L):
+            H0[i, i] = Nop + R(*case["cs"][i])
+            al, be, ga = case["diag"][i]
+            H1[i, i] = R(*al) * (o + Dagger(o)) + R(*be) * Nop
+            if sub == "levels_boson":
+                H1[i, i] += R(*ga) * (o**2 + Dagger(o) ** 2) / 2
+        x, y, z = case["off"]
+        H1[1, 0] = R(*x) * Dagger(o) + R(*y) * o + R(*z)
+        H1[0, 1] = R(*x) * o + R(*y) * Dagger(o) + R(*z)
+        return sp, L, H0, H1, (2 if sub == "levels_boson" else 1)
+    if sub == "scalar1":
+        a = sp.bos[0]
+        Nop = NumberOperator(a)
+        c1, c2, c3 = (R(*c) for c in case["c"])
+        H0 = sympy.Matrix([[OMEGAS[1] * Nop]])
+        H1 = sympy.Matrix([[c1 * (a + Dagger(a)) + c2 * (a**2 + Dagger(a) ** 2) / 2 + c3 * (Nop * a + Dagger(a) * Nop) / 3]])
+        return sp, 1, H0, H1, 2
+    a, b = sp.bos
+    c1, c2, c3 = (R(*c) for c in case["c"])
+    H0 = sympy.Matrix([[OMEGAS[0] * NumberOperator(a) + OMEGAS[1] * NumberOperator(b)]])
+    H1 = sympy.Matrix([[c1 * (a + Dagger(a)) + c2 * (Dagger(a) * b + Dagger(b) * a) + c3 * (b + Dagger(b)) / 2]])
+    return sp, 1, H0, H1, 1
+
+
+def check_mask_case(case, tol=1e-7):
+    from pymablock import block_diagonalize
+    from pymablock.series import zero, one
+    from pymablock.number_ordered_form import NumberOrderedForm
+    sp, L, H0, H1, hop = _mask_build(case)
+    ops_list = sp.bos + sp.spin + sp.fer
+    N = case["N"]
+    dim = sp.dim
+    mask = case["mask"]
+    mexpr = sympy.Matrix([[_entry_expr(mask[i][j], ops_list) for j in range(L)] for i in range(L)])
+    form = case["form"]
+    if form == "expr":
+        fd = mexpr[0, 0]
+    elif form == "dict":
+        fd = {0: (mexpr[0, 0] if (L == 1 and case["sub"] == "scalar2") else mexpr)}
+    else:
+        fd = mexpr
+    scalar = L == 1
+    Hin0, Hin1 = (H0[0, 0], H1[0, 0]) if scalar else (H0, H1)
+
+    def fock(M):
+        if M is zero:
+            return np.zeros((L * dim, L * dim), dtype=complex)
+        if M is one:
+            return np.eye(L * dim, dtype=complex)
+        if not isinstance(M, sympy.MatrixBase):
+            M = sympy.Matrix([[M]])
+        return np.block([[sp.tomat(M[i, j]) for j in range(L)] for i in range(L)])
+    # reference mask on the truncated Fock space: entry [(i,n),(j,m)] carries the operator power m - n
+    Mref = np.zeros((L * dim, L * dim), dtype=bool)
+    for i in range(L):
+        for j in range(L):
+            for ni, n in enumerate(sp.states):
+                for mi, m in enumerate(sp.states):
+                    if mask_selects(mask[i][j], [mm - nn for mm, nn in zip(m, n)]):
+                        Mref[i * dim + ni, j * dim + mi] = True
+    fails = []
+    with warnings.catch_warnings():
+        warnings.simplefilter("ignore")
+        try:
+            Ht, U, Ud = block_diagonalize([Hin0, Hin1], fully_diagonalize=fd)
+            raw = {(nm, k): S[0, 0, k] for nm, S in (("H_tilde", Ht), ("U", U), ("U†", Ud)) for k in range(N + 1)}
+            ops = {key: fock(v) for key, v in raw.items()}
+            h0 = fock(H0).real
+            h1 = fock(H1)
+            h1 = h1.real if np.allclose(h1.imag, 0) else h1
+            Htm, Um, Udm = block_diagonalize([np.diag(np.diag(h0)), h1], fully_diagonalize={0: Mref})
+        except Exception as e:
+            return [dict(what="masked block_diagonalize raised %s: %s" % (type(e).__name__, str(e)[:300]), input=case)]
+
+        def dense(v):
+            if v is zero:
+                return np.zeros((L * dim, L * dim))
+            if v is one:
+                return np.eye(L * dim)
+            return np.asarray(v.toarray() if hasattr(v, "toarray") else v)
+
+        def keepidx(margin):
+            inner = sp.interior(margin)
+            return [lvl * dim + s for lvl in range(L) for s in inner]
+        for k in range(N + 1):
+            keep = keepidx(k * hop + 2)
+            if not keep:
+                continue
+            sel = np.ix_(keep, keep)
+            for nm, Sm in (("H_tilde", Htm), ("U", Um), ("U†", Udm)):
+                ref = dense(Sm[0, 0, k])
+                d = np.abs(ops[nm, k][sel] - ref[sel]).max()
+                if not np.isfinite(d) or d > tol * max(1.0, np.abs(ref).max()):
+                    fails.append(dict(what="operator-valued mask (%s, %s form): %s at order %d differs from the masked truncated-matrix result on interior Fock states by %.3g"
+                                      % (case["sub"], form, nm, k, d), input=case))
+        Hm = {0: fock(H0), 1: fock(H1)}
+        for n in range(N + 1):
+            keep = keepidx(n * hop + 2)
+            if not keep:
+                continue
+            sel = np.ix_(keep, keep)
+            uu = sum(ops["U†", p] @ ops["U", n - p] for p in range(n + 1))
+            tgt = np.eye(L * dim) if n == 0 else np.zeros((L * dim, L * dim))
+            d = np.abs((uu - tgt)[sel]).max()
+            if d > tol:
+                fails.append(dict(what="operator-valued mask: U†U != 1 at order %d on interior Fock states (%.3g)" % (n, d), input=case))
+            tot = sum(ops["U†", p] @ Hm[q] @ ops["U", n - p - q] for p in range(n + 1) for q in range(min(1, n - p) + 1))
+            d = np.abs((tot - ops["H_tilde", n])[sel]).max()
+            if d > tol * max(1.0, np.abs(tot).max()):
+                fails.append(dict(what="operator-valued mask: U†HU != H_tilde at order %d on interior Fock states (%.3g)" % (n, d), input=case))
+        # the selected operator powers must be absent from H_tilde
+        for k in range(1, N + 1):
+            v = raw["H_tilde", k]
+            if v is zero:
+                continue
+            if not isinstance(v, sympy.MatrixBase):
+                v = sympy.Matrix([[v]])
+            for i in range(L):
+                for j in range(L):
+                    e = v[i, j]
+                    if e == 0:
+                        continue
+                    nof = NumberOrderedForm.from_expr(e, operators=ops_list) if not isinstance(e, NumberOrderedForm) else e._expand_operators(sympy.Tuple(*ops_list)) if list(e.operators) != ops_list else e
+                    for powers, coeff in nof.args[1]:
+                        pw = [int(p) for p in powers]
+                        if mask_selects(mask[i][j], pw) and sympy.simplify(coeff) != 0:
+                            fails.append(dict(what="operator-valued mask: H_tilde[%d,%d] at order %d still contains the selected operator power %s" % (i, j, k, pw), input=case))
+    return fails
+
+
 def _worker(case):
     t = time.time()
     try:
-        f = check_matrix_case(case) if case.get("kind") == "matrix" else check_case(case)
+        f = check_mask_case(case) if case.get("kind") == "mask" else (check_matrix_case(case) if case.get("kind") == "matrix" else check_case(case))
     except Exception as e:
         import traceback
         f = [dict(what="oracle crashed: " + traceback.format_exc()[-800:], input=case, crash=True)]
@@ -363,6 +633,10 @@ def oracle_fock(ctx, ncases=None, N=None):
         c = gen_matrix_case(ctx.rng) if i % 3 == 2 else (gen_spin_case(ctx.rng) if i % 3 == 0 else gen_case(ctx.rng))
         c["N"] = N or ctx.n(2, 3)
         cases.append(c)
+    for i in range(ctx.n(4, 60)):  # operator-valued elimination masks (fully_diagonalize = sympy Matrix / dict / Expr)
+        c = gen_mask_case(ctx.rng)
+        c["N"] = N or 2
+        cases.append(c)
     if ctx.quick:
         res = [_worker(c) for c in cases]
     else:
@@ -373,12 +647,12 @@ def oracle_fock(ctx, ncases=None, N=None):
     import json
     distinct = {json.dumps(c, sort_keys=True) for c in cases}
     return dict(evaluations=len(cases), nontrivial=len(distinct),
-                rule="random second-quantised Hamiltonians (0-1 boson modes truncated at 7 quanta, 1-3 fermion modes; every third case a spin-1/2 mode next to fermions/bosons with a spin flip and a fermion-linear term; number-conserving H_0 with incommensurate rational frequencies and optional density interaction, 2-4 perturbation terms incl. pairing and boson-assisted hopping), orders <= N; operator-valued H_tilde/U/U† converted to matrices (Jordan-Wigner, Fock truncation) and compared with the matrix computation on states >= order+1 below the truncation edge, plus U†U=1 and U†HU=H_tilde there",
+                rule="random second-quantised Hamiltonians (0-1 boson modes truncated at 7 quanta, 1-3 fermion modes; every third case a spin-1/2 mode next to fermions/bosons with a spin flip and a fermion-linear term; number-conserving H_0 with incommensurate rational frequencies and optional density interaction, 2-4 perturbation terms incl. pairing and boson-assisted hopping), orders <= N; operator-valued H_tilde/U/U† converted to matrices (Jordan-Wigner, Fock truncation) and compared with the matrix computation on states >= order+1 below the truncation edge, plus U†U=1 and U†HU=H_tilde there; plus a masked family: fully_diagonalize given as operator-valued masks (sympy Matrix, {0: Matrix} and scalar Expr forms; a + a†, a**k / Dagger(a)**k and a**(k+2) + Dagger(a)**(k+2) with a symbolic nonnegative integer k, products over two modes, level x boson, level x fermion and scalar Hamiltonians) compared with the matrix computation using the 0/1 mask M[(i,n),(j,m)] = [mask[i,j] selects the power m-n], and the selected powers must be absent from H_tilde",
                 samples=[dict(c) for c in cases[:2]], failures=fails)
 
 
 def replay(inp):
-    f = check_matrix_case(inp) if inp.get("kind") == "matrix" else check_case(inp)
+    f = check_mask_case(inp) if inp.get("kind") == "mask" else (check_matrix_case(inp) if inp.get("kind") == "matrix" else check_case(inp))
     for x in f[:5]:
         print("still fails:", x["what"])
     return 1 if f else 0
